@@ -1143,7 +1143,11 @@ impl Gc {
         D::Value: Sized + Any,
     {
         let size = def.size();
-        let needed = self.allocated_memory.saturating_add(size);
+        // The header is accounted to `allocated_memory` as well so it counts towards the limit
+        let needed = self
+            .allocated_memory
+            .saturating_add(size)
+            .saturating_add(GcHeader::value_offset());
         if needed >= self.memory_limit {
             return Err(Error::OutOfMemory {
                 limit: self.memory_limit,
